@@ -1,7 +1,8 @@
 import Driver.Util
 import RxnModel.Model.Align
 /-!
-Driver section for C02 (barrier alignment). Header: `M C02 <senders> <batchMaxSize>`.
+Driver section for C02 (barrier alignment). Header: `M C02 <senders> <batchMaxSize> [<undeployed senders>]`
+(senders `k … k+z-1` call without being among the deployed `SourceRunnerIds`).
 Ops (one output line each):
   `send <sr> ev <keyhex> <p> <t>` | `send <sr> wm <ts>` | `send <sr> bar <id>`  → `passed` | `parked` | `busy`
   `send <sr> done` (SourceComplete) likewise
@@ -13,7 +14,7 @@ Ops (one output line each):
   `gohold <sr>` → like `go`, but a barrier that completes the checkpoint stops the consumer at the start of its
                 flush: `held rel:<woken senders>`; while held `go <x>` → `queued` | `noop`, `resume` → `ok <…>`,
                 everything else → `consumer-held`
-  `failnext`  → `armed` (the next ack to the job fails)      `redeploy` → `redeployed:<senders turned away>`
+  `failnext`  → `armed` (the next ack to the job fails)   `failckpt` → `armed` (the next `db.Checkpoint` fails)      `redeploy` → `redeployed:<senders turned away>`
   `tick` / `stale` → `none` | `H(...)`
   `state`     → `ck=<id>:<missing>|- slots=<per sender p|k|->`   (mechanism detail)
 The step function is `Rxn.Align.step`, the one the theorems of `Props/C02.lean` are about.
@@ -73,6 +74,7 @@ def showAll (keys : List Bytes) (ids : List Nat) (obs : List Obs) : List String 
 def newIds (ids : List Nat) (obs : List Obs) : List Nat :=
   obs.foldl (fun acc o => match o with
     | .snap id _ _ => id :: acc
+    | .ackfail id => id :: acc   -- also after a failed `db.Checkpoint`: the DKV's list already holds the id
     | .redeployed _ => []
     | _ => acc) ids
 
@@ -80,7 +82,7 @@ def showState (s : St) : String :=
   let ck := match s.ckpt with
     | none => "-"
     | some (id, m) => s!"{id}:{joinWith "." (m.map toString)}"
-  let slots := String.ofList ((List.range s.k).map fun i =>
+  let slots := String.ofList ((List.range (s.k + s.z)).map fun i =>
     match s.slots i with
     | none => '-'
     | some (_, true) => 'p'
@@ -135,33 +137,36 @@ def step'' (st : DSt) : List String → DSt × String
   | ["send", sr, "ev", k, p, t] =>
     let key := hexOr k
     let st := { st with keys := insSorted key st.keys }
-    if natOr sr < st.s.k then
+    if natOr sr < st.s.k + st.s.z then
       let (st, o) := doAct st (.align (natOr sr) (.ev key (natOr p) (natOr t)))
       (st, if o.isEmpty then "gone" else joinWith " " o)
     else (st, "bad-op")
   | ["send", sr, "wm", ts] =>
-    if natOr sr < st.s.k then
+    if natOr sr < st.s.k + st.s.z then
       let (st, o) := doAct st (.align (natOr sr) (.wm (natOr ts)))
       (st, if o.isEmpty then "gone" else joinWith " " o)
     else (st, "bad-op")
   | ["send", sr, "bar", id] =>
-    if natOr sr < st.s.k then
+    if natOr sr < st.s.k + st.s.z then
       let (st, o) := doAct st (.align (natOr sr) (.bar (natOr id)))
       (st, if o.isEmpty then "gone" else joinWith " " o)
     else (st, "bad-op")
   | ["send", sr, "done"] =>
-    if natOr sr < st.s.k then
+    if natOr sr < st.s.k + st.s.z then
       let (st, o) := doAct st (.align (natOr sr) .done)
       (st, if o.isEmpty then "gone" else joinWith " " o)
     else (st, "bad-op")
   | ["failnext"] =>
     let (st, _) := doAct st .armFail
     (st, if st.s.stopped then "gone" else "armed")
+  | ["failckpt"] =>
+    let (st, _) := doAct st .armDbFail
+    (st, if st.s.stopped then "gone" else "armed")
   | "sendb" :: sr :: ws =>
     let its := ws.filterMap parseItem
     if its.length != ws.length || its.isEmpty then (st, "bad-op") else
     let st := { st with keys := addKeys st.keys its }
-    if natOr sr < st.s.k then
+    if natOr sr < st.s.k + st.s.z then
       match its with
       | it :: tl =>
         let free := (st.s.slots (natOr sr)).isNone
@@ -170,7 +175,7 @@ def step'' (st : DSt) : List String → DSt × String
       | [] => (st, "bad-op")
     else (st, "bad-op")
   | ["cancel", sr] =>
-    let inFlight := natOr sr < st.s.k && (st.s.slots (natOr sr)).isSome && !st.s.stopped
+    let inFlight := natOr sr < st.s.k + st.s.z && (st.s.slots (natOr sr)).isSome && !st.s.stopped
     let (st, _) := doAct st (.cancel (natOr sr))
     (st, if inFlight then "cancelled" else "noop")
   | ["redeploy"] =>
@@ -197,7 +202,7 @@ def step'' (st : DSt) : List String → DSt × String
 def startBlocked (st : DSt) (h : HSt) (sr : Nat) (its : List Item) (n : Nat) : DSt × String :=
   if its.length != n || its.isEmpty then (st, "bad-op") else
   let st := { st with keys := addKeys st.keys its }
-  if sr < st.s.k then
+  if sr < st.s.k + st.s.z then
     match its with
     | it :: tl =>
       let r := hstep h (.base (.align sr it))
@@ -240,7 +245,7 @@ def stepBoth (st : DSt × DSt) (ws : List String) : (DSt × DSt) × String :=
   -- a redeploy that finds the batcher empty and no call past alignment ends the D45 situation: from here on the
   -- two copies must agree again, so the spec copy restarts from the code copy (batch tokens may have drifted)
   let clean := ws == ["redeploy"] && st.1.held.isNone && st.1.s.pending.isEmpty &&
-    (List.range st.1.s.k).all fun i => match st.1.s.slots i with | some (_, true) => false | _ => true
+    (List.range (st.1.s.k + st.1.s.z)).all fun i => match st.1.s.slots i with | some (_, true) => false | _ => true
   ((c, if clean then { c with specMode := true } else sp),
    if xc == xs then xc else s!"{xc} #spec {xs} #kf D45")
 
@@ -248,6 +253,8 @@ def handle (lines : Array String) (i : Nat) (out : Array String) : Nat × Array 
   let hdr := words (lines.getD (i - 1) "")
   let k := natOr (hdr.getD 2 "1")
   let b := natOr (hdr.getD 3 "1")
-  runLines stepBoth ({ s := init k (max b 1) }, { s := init k (max b 1), specMode := true }) lines i out
+  let z := natOr (hdr.getD 4 "0")
+  runLines stepBoth ({ s := { init k (max b 1) with z := z } },
+                     { s := { init k (max b 1) with z := z }, specMode := true }) lines i out
 
 end Driver.C02
